@@ -264,6 +264,21 @@ def random_oracle(case):
     inlets = [i for i in case["inlets"] if i != outlet]
     if case["inlet_on_chain"] and len(m0) > 1:
         cand = sorted(m0 - {outlet})
+        if case["inlet_on_chain"] >= 2:
+            # prefer an interior leaf cell: as an inlet it leaves a hole in
+            # the area that the hole filling must close
+            def interior_leaf(c):
+                r, k = divmod(c, nc)
+                if r in (0, nr - 1) or k in (0, nc - 1):
+                    return False
+                if any(down[u] == c for u in range(n)):
+                    return False
+                return all((r + dr) * nc + k + dk in m0
+                           for dr in (-1, 0, 1) for dk in (-1, 0, 1))
+            leaves = [c for c in cand if interior_leaf(c)]
+            if leaves:
+                cand = leaves
+                labels.add("inlet:interior-leaf")
         pick = cand[case["inlet_on_chain"] % len(cand)]
         if pick not in inlets:
             inlets.append(pick)
